@@ -53,29 +53,30 @@ func genC12(x *Ctx) *c12Scen {
 	sc.Preempt = []int{300, 100, 500, 50}[tp.G(4)]
 	sc.Reentrant = tp.Chance(350)
 	sc.Rendezvous = tp.Chance(200)
-	nSvc := tp.Range(2, 4)
 	rootPerm := tp.Perm(len(c12Roots))
 	rid := 0
-	for i := 0; i < nSvc; i++ {
+	tp.Repeat(2, 4, 500, func(i int) {
 		sp := SvcSpec{ID: i, Root: c12Roots[rootPerm[i]], Dynamic: true}
-		nInit := tp.Range(1, 3)
-		nPool := tp.Range(0, 2)
 		subPerm := tp.Perm(len(c12Subs))
-		for k := 0; k < nInit+nPool && k < len(subPerm); k++ {
+		nInit := 0
+		tp.Repeat(1, 5, 600, func(k int) {
 			rid++
 			r := RouteSpec{ID: rid, Method: []string{"GET", "POST"}[tp.G(2)], Path: c12Subs[subPerm[k]]}
 			r.Cond = tp.Chance(250)
+			if k == 0 || tp.G(3) != 0 { // initial route or pool route (added later by an admin task)
+				if nInit == k {
+					nInit++
+				}
+			}
 			sp.Routes = append(sp.Routes, r)
-		}
-		if nInit > len(sp.Routes) {
-			nInit = len(sp.Routes)
-		}
+		})
 		sc.InitR[i] = nInit
 		if tp.G(3) != 0 {
 			sc.Members = append(sc.Members, i)
 		}
 		sc.Svcs = append(sc.Svcs, sp)
-	}
+	})
+	nSvc := len(sc.Svcs)
 	// admin tasks own disjoint sets of services, so each knows the membership of its own
 	nAdmin := tp.Range(1, 2)
 	owned := make([][]int, nAdmin)
@@ -103,8 +104,7 @@ func genC12(x *Ctx) *c12Scen {
 				present[r.ID] = k < sc.InitR[sp.ID]
 			}
 		}
-		n := tp.Range(1, maxOps)
-		for k := 0; k < n; k++ {
+		tp.Repeat(1, maxOps, 650, func(int) {
 			sid := owned[a][tp.G(len(owned[a]))]
 			sp := sc.Svcs[sid]
 			switch tp.G(4) {
@@ -126,21 +126,20 @@ func genC12(x *Ctx) *c12Scen {
 					present[r.ID] = true
 				}
 			}
-		}
+		})
 		sc.Admins = append(sc.Admins, ops)
 	}
-	nClients := tp.Range(1, 3)
-	if sc.Rendezvous && nClients < 2 {
-		nClients = 2
+	minClients := 1
+	if sc.Rendezvous {
+		minClients = 2
 	}
 	maxReq := 3
 	if x.Thorough() {
 		maxReq = 5
 	}
-	for c := 0; c < nClients; c++ {
+	tp.Repeat(minClients, 3, 600, func(int) {
 		var ps []Probe
-		n := tp.Range(1, maxReq)
-		for k := 0; k < n; k++ {
+		tp.Repeat(1, maxReq, 600, func(int) {
 			sp := sc.Svcs[tp.G(nSvc)]
 			r := sp.Routes[tp.G(len(sp.Routes))]
 			p := Probe{Method: []string{r.Method, "GET", "POST", "PUT"}[tp.G(4)], Path: instantiate(FullPath(sp.Root, r.Path), tp.G(3))}
@@ -148,9 +147,9 @@ func genC12(x *Ctx) *c12Scen {
 				p.Path = "/nowhere/at/all"
 			}
 			ps = append(ps, p)
-		}
+		})
 		sc.Clients = append(sc.Clients, ps)
-	}
+	})
 	return sc
 }
 
